@@ -245,6 +245,27 @@ Definition to_char_array (s : str) : list str := map (fun c => [c]) s.
 Fixpoint repeat_str (s : str) (k : nat) : str := match k with O => [] | S k' => s ++ repeat_str s k' end.
 Definition str_mul (s : str) (n : Z) : str := repeat_str s (Z.to_nat n).
 
+(* ---- ordering (Python compares strings by code point), concat, ASCII case mapping ---------------- *)
+Fixpoint str_ltb (a b : str) : bool :=
+  match a, b with
+  | _, [] => false
+  | [], _ :: _ => true
+  | x :: a', y :: b' => (x <? y) || ((x =? y) && str_ltb a' b')
+  end.
+Definition str_leb (a b : str) : bool := negb (str_ltb b a).
+Inductive cmpop := OpLt | OpLe | OpGt | OpGe.
+Definition str_cmp (op : cmpop) (a b : str) : bool :=
+  match op with OpLt => str_ltb a b | OpLe => str_leb a b | OpGt => str_ltb b a | OpGe => str_leb b a end.
+
+Definition str_concat (parts : list str) : str := concat parts.
+
+(* toUpper / toLower on ASCII text only (Unicode case mapping is not modelled) *)
+Definition is_ascii (s : str) : bool := forallb (fun c => (0 <=? c) && (c <? 128)) s.
+Definition upper_c (c : Z) : Z := if (97 <=? c) && (c <=? 122) then c - 32 else c.
+Definition lower_c (c : Z) : Z := if (65 <=? c) && (c <=? 90) then c + 32 else c.
+Definition ascii_upper (s : str) : str := map upper_c s.
+Definition ascii_lower (s : str) : str := map lower_c s.
+
 (* ---- characters() ----------------------------------------------------------------------------- *)
 Fixpoint zrange (a : Z) (k : nat) : str := match k with O => [] | S k' => a :: zrange (a + 1) k' end.
 Definition c_digits := zrange 48 10.
@@ -301,7 +322,12 @@ Inductive call :=
 | KLen (s : str)
 | KIn (sub s : str)
 | KMul (s : str) (n : Z)
-| KCharacters (f : cflags).
+| KCharacters (f : cflags)
+| KCmp (op : cmpop) (a b : str)
+| KConcat (parts : list str)
+| KStr (v : scalar)
+| KUpper (s : str)
+| KLower (s : str).
 
 Inductive res :=
 | RNull
@@ -338,6 +364,11 @@ Definition eval (c : call) : res :=
   | KIn sub s => RBool (str_in sub s)
   | KMul s n => RStr (str_mul s n)
   | KCharacters f => RStr (characters f)
+  | KCmp op a b => RBool (str_cmp op a b)
+  | KConcat parts => RStr (str_concat parts)
+  | KStr v => RStr (str_of v)
+  | KUpper s => RStr (ascii_upper s)
+  | KLower s => RStr (ascii_lower s)
   end.
 
 Definition res_eqb (a b : res) : bool :=
